@@ -452,10 +452,10 @@ def _set_threshold(world):
     for label in reversed(list(world.channels)):
         ch = world.channels[label].ends.get("A")
         if ch is not None and ch.readyState == "open":
-            ch.bufferedAmountLowThreshold = 20
+            ch.bufferedAmountLowThreshold = 30      # exactly the size of the last message of the burst
             rec = world.by_obj.get(id(ch))
             if rec:
-                rec["threshold"] = 20
+                rec["threshold"] = 30
             return
 
 
@@ -483,6 +483,28 @@ def programs(tier):
                         continue
                     if tier != "quick" and len(script) == 3 and (rel != "rel" or (client == "B" and behaviour != "idle")):
                         continue
+                    out.append(program_name(script, behaviour, client, rel))
+    return out
+
+
+# longer hand-picked scripts on top of the grammar: several channels closed back to back while one of them is busy,
+# a channel created in the instant another one is closed (id re-use while the reset is pending), close after a burst
+EXTRA_SCRIPTS = [
+    [("cA", "P"), ("cA", "="), ("sL", "E"), ("x", "="), ("x", "=")],
+    [("cA", "P"), ("cN", "="), ("sS", "E"), ("x", "="), ("x", "=")],
+    [("cA", "P"), ("cA", "="), ("cN", "="), ("sL", "E"), ("x", "="), ("x", "="), ("x", "=")],
+    [("cA", "P"), ("sL", "E"), ("x", "="), ("cA", "="), ("sS", "E")],
+    [("cN", "P"), ("sL", "E"), ("x", "="), ("cA", "="), ("sS", "E"), ("x", "=")],
+    [("cA", "P"), ("cA", "="), ("sS", "E"), ("x", "E"), ("sS", "E"), ("x", "=")],
+]
+
+
+def extra_programs(tier):
+    out = []
+    for script in EXTRA_SCRIPTS:
+        for behaviour in ("idle", "echo_close", "cB"):
+            for client in "AB":
+                for rel in (("rel",) if tier == "quick" else tuple(RELIABILITY)):
                     out.append(program_name(script, behaviour, client, rel))
     return out
 
@@ -521,13 +543,17 @@ def run(tier, seed):
         else:
             k = 2 if len(script) <= 2 else 1
         sb.append((p, k))
+    extra = extra_programs(tier)
+    sb += [(p, 1 if tier == "quick" else 2) for p in extra]
+    progs = progs + extra
     labels = [("label:%d:%d:%s" % (i, j, rel), 0) for i in range(len(TEXTS)) for j in range(len(TEXTS))
               for rel in (("rel",) if (i + j) % 3 else tuple(RELIABILITY))]
     res = run_sched(
         "props.c13", PID, sb + labels, seed,
         rule="programs = every script of <= %d operations of side A over {create auto-id channel, create negotiated pair (id 4), "
              "send small, send burst (3 fragments + empty + small, with a bufferedAmountLowThreshold), close latest channel, stop "
-             "association} with anchors {before start, INIT in flight, COOKIE in flight, established, same instant as the previous "
+             "association} (plus 6 hand-picked scripts of 5-7 operations: several channels closed back to back while one is busy, a "
+             "channel created in the instant another is closed) with anchors {before start, INIT in flight, COOKIE in flight, established, same instant as the previous "
              "operation} x behaviour of side B {idle, echo first message then close, create its own channel at the same instant, "
              "create and close at once} x which side is the SCTP client x reliability {reliable, maxRetransmits=0 unordered, "
              "maxPacketLifeTime=50}; on every program all executions with <= k deviations (drop/dup/reorder/timer first/operation "
